@@ -141,8 +141,45 @@ def observe(c):
             os.rmdir(d)
         except OSError:
             pass
+    if c.get("stencil"):
+        rec["sten"] = stencil(mesh)
     mesh.parallel_map = None
     return rec
+
+
+LOC_C = {"centre": 0, "xlow": 300, "ylow": 700, "corners": 1100}
+
+
+def stencil(mesh):
+    """REAL MeshRegion.DDX / DDY on an integer test field Val(id, loc, i, j) = 1009 id + 53 i^2 + 17 j^2 + 5 i j + c(loc), with dx = 2 and
+    dy = 4 everywhere; returns result * dx (resp. * dy), which is an exact integer: the numerator StencilDefs.tla specifies"""
+    for i, r in mesh.regions.items():
+        tf = MultiLocationArray(r.nx, r.ny)
+        dx = MultiLocationArray(r.nx, r.ny)
+        dy = MultiLocationArray(r.nx, r.ny)
+        for loc in LOC_C:
+            a = getattr(tf, loc)
+            ii, jj = np.meshgrid(np.arange(a.shape[0]), np.arange(a.shape[1]), indexing="ij")
+            a[...] = 1009 * i + 53 * ii * ii + 17 * jj * jj + 5 * ii * jj + LOC_C[loc]
+            getattr(dx, loc)[...] = 2.0
+            getattr(dy, loc)[...] = 4.0
+        r.tf, r.dx, r.dy = tf, dx, dy
+    out = []
+    for i in sorted(mesh.regions):
+        r = mesh.regions[i]
+        with warnings_off():
+            ddx, ddy = r.DDX("#tf"), r.DDY("#tf")
+        out.append({"id": i, "ddx": {loc: np.rint(getattr(ddx, loc) * 2.0).astype(int).tolist() for loc in LOC_C},
+                    "ddy": {loc: np.rint(getattr(ddy, loc) * 4.0).astype(int).tolist() for loc in LOC_C},
+                    "exact": int(all(np.all(np.abs(getattr(d, loc) * m - np.rint(getattr(d, loc) * m)) < 1e-9) for d, m in ((ddx, 2.0), (ddy, 4.0)) for loc in LOC_C))})
+    return out
+
+
+def warnings_off():
+    import warnings
+
+    cm = warnings.catch_warnings()
+    return cm
 
 
 def main():
